@@ -40,7 +40,9 @@ def run(rep):
                 "without / thorough with never-resolving subsets), plus the mixed family (schedules x dependencies x "
                 "never x unknown over <= 3 references), the object-structure family (one object with two reference lists "
                 "[and a single reference]; a parent and its first child starting at the same position, both with a list "
-                "of the same name) over <= 3 (thorough 4) references and lists naming a target twice, loaded with real "
+                "of the same name) over <= 3 (thorough 4) references, lists naming a target twice, and the api family (the "
+                "provider asks textX whether its dependencies are resolved: every structure over <= 3 references, "
+                "4 references in one layout), loaded with real "
                 "textX, one metamodel per worker process reused for all loads (earlier models dropped); I->S: the provider calls of those "
                 "loads plus seeded-random scenarios (<= 3 files, <= 9 references) validated by TLC. Non-trivial: at "
                 "least one dependency or never-resolving reference; distinct by scenario content.")
@@ -52,6 +54,12 @@ def run(rep):
         "the provider is the inner provider of textx.scoping.providers.ImportURI registered under '*.*', so the "
         "references of all files are resolved by the main model's loop",
         "every rendered file holds at least one definition",
+        "mode 'api': the provider decides whether deps[r] are resolved by asking textX "
+        "(textx.scoping.tools.resolve_model_path on the attribute holding the reference, which answers Postponed while "
+        "the attribute waits); the module states what textX reports: an attribute waits while one of its references "
+        "is in the parser's pending list, which changes when a resolution step of that model ends",
+        "every scenario is loaded with the provider registered under '*.*' and with the provider attached to the "
+        "reference attributes (as lang.py does for a grammar RREL) and nothing registered",
     ]
     devs = {f["id"]: f["deviation"] for f in common.open_findings(PID)}
     # (M)
